@@ -110,7 +110,7 @@ func harnessC03UpcastPairs() {
 	c03Pair(ops)
 }
 
-//verif:entry property=C03 tier=both bounds="re-entrancy: one call back into the same bus (publish other type, publish same type from a non-sequential handler, subscribe, unsubscribe of another handler or of the calling handler itself, clear, clear-all, HasHandlers, HandlerCount, or a panic of the handler) issued from inside a handler, a filter, a before-publish hook, an after-publish hook, the panic handler (after a handler panic) or the persistence error handler (after a rejected append); Sequential and Async handler flags symbolic (synchronous self-delivery to a Sequential handler excluded as in the statement)" cover="reentrant-done"
+//verif:entry property=C03 tier=both bounds="re-entrancy: one call back into the same bus (publish other type, publish same type from a non-sequential handler, subscribe, unsubscribe of another handler or of the calling handler itself, clear, clear-all, HasHandlers, HandlerCount, or a panic of the handler) issued from inside a handler, a filter, a before-publish hook, an after-publish hook, the panic handler (after a handler panic) or the persistence error handler (after a rejected append); Sequential, Async and Once handler flags symbolic (synchronous self-delivery to a Sequential handler excluded as in the statement)" cover="reentrant-done"
 func harnessC03Reentrant() {
 	where := vPick(6) // 0 handler, 1 filter, 2 before hook, 3 after hook, 4 panic handler, 5 persistence error handler
 	what := vPick(10)
@@ -187,6 +187,9 @@ func harnessC03Reentrant() {
 	}
 	if async {
 		so = append(so, Async())
+	}
+	if vBool() {
+		so = append(so, Once()) // a one-shot handler calls back just the same
 	}
 	if where == 1 {
 		so = append(so, WithFilter(func(e evA) bool { action(); return true }))
